@@ -142,11 +142,13 @@ class Req:
 
 
 class Ctx:
-    def __init__(self, sp, R, n_handles, origins, methods, kinds, precache, omit=False):
+    def __init__(self, sp, R, n_handles, origins, methods, kinds, precache, omit=False, nondefault=False):
         self.sp = sp
         self.R = R
         self.n = n_handles
         self.origins, self.methods, self.kinds, self.precache = origins, methods, kinds, precache
+        self.nondefault = nondefault    # the loop that runs is NOT desper.default_loop
+        self.idle_h = None              # script handle the idle default loop is seated on (if any)
         self.omit = omit            # clear flags are three-valued: omitted / False / True
         self.handles = [None] * n_handles
         self.loads = [0] * n_handles            # observed load() calls
@@ -330,6 +332,12 @@ class Ctx:
                 sp.cover('reenter-held')
         elif r.cn or r.cc:
             sp.cover('raw-clear')
+        if self.nondefault and r.method == 'switch':
+            sp.cover('nondefault-loop')
+            if j == c and r.cc:
+                sp.cover('nondefault-self-switch-clear')
+            if self.idle_h == j:
+                sp.cover('idle-default-on-target' + ('' if j == c else '-other'))
         # ---- bookkeeping
         self.fired = True
         self.entering = True
@@ -341,7 +349,7 @@ class Ctx:
         if r.method == 'raw':
             raise desper.SwitchWorld(h, **r.kw)
         try:
-            if r.origin == 'processor':
+            if r.origin == 'processor' or self.nondefault:
                 desper.switch(h, from_world=inst.world, **r.kw)
             else:
                 desper.switch(h, **r.kw)
@@ -449,13 +457,20 @@ def base_loop_defaults(sp):
 
 
 def h_switch(sp, R=2, n_handles=2, origins=('processor', 'on_update', 'coroutine'), methods=('switch', 'raw'),
-             kinds=('muted', 'plain'), precache=True, omit=False):
-    ctx = Ctx(sp, R, n_handles, list(origins), list(methods), list(kinds), precache, omit)
+             kinds=('muted', 'plain'), precache=True, omit=False, nondefault=False):
+    ctx = Ctx(sp, R, n_handles, list(origins), list(methods), list(kinds), precache, omit, nondefault)
     base_loop_defaults(sp)
     loop = desper.SimpleLoop(time_function=itertools.count().__next__)
     ctx.loop = loop
     saved = desper.default_loop
-    desper.default_loop = loop
+    idle = None
+    if nondefault:
+        # the global default loop is another, idle SimpleLoop; every switch() passes from_world= explicitly,
+        # which is all the public API asks of the user of a custom loop
+        idle = desper.SimpleLoop()
+        desper.default_loop = idle
+    else:
+        desper.default_loop = loop
     try:
         h0 = ctx.make_handle(0, first=True)
         loop.switch(h0)
@@ -471,6 +486,26 @@ def h_switch(sp, R=2, n_handles=2, origins=('processor', 'on_update', 'coroutine
                  and h0() is ctx.cur_inst.world, 'direct-switch-keeps-instance',
                  'loop.switch(h0) without clear flags on the seated handle: h0 loaded %d times' % ctx.loads[0])
         sp.cover('flag-omitted-direct')
+        if nondefault:
+            seat = sp.pick(['none', 'own', 'script'], 'idle-default-loop')
+            if seat == 'own':
+                idle.switch(CountingHandle())
+                sp.note('   desper.default_loop is an idle SimpleLoop seated on a world of its own')
+            elif seat == 'script':
+                k = sp.choose(n_handles, 'idle-handle')
+                if ctx.handles[k] is None:
+                    ctx.make_handle(k)
+                idle.switch(ctx.handles[k])
+                if not ctx.mcached[k]:
+                    ctx.mcount[k] += 1
+                    ctx.mcached[k] = True
+                    ctx.minst[k] = ctx.inst_of(idle.current_world)
+                sp.check(idle.current_world is ctx.minst[k].world and ctx.loads[k] == ctx.mcount[k], 'idle-seat',
+                         'seating the idle default loop on h%d' % k)
+                ctx.idle_h = k
+                sp.note('   desper.default_loop is an idle SimpleLoop seated on h%d (%r)' % (k, ctx.minst[k]))
+            else:
+                sp.note('   desper.default_loop is an idle SimpleLoop without a world')
         try:
             loop.start()
         except HarnessOverrun:
@@ -501,6 +536,7 @@ ALL_TAGS = ['origin-processor', 'origin-on_update', 'origin-coroutine', 'method-
             'switch-clear_next-cached', 'switch-clear_next-uncached', 'switch-clear_current', 'switch-self',
             'switch-self-cleared', 'reenter-held', 'raw-clear', 'left-handle-cleared', 'entered-fresh-muted', 'entered-fresh-plain',
             'precached-muted', 'precached-plain', 'flag-omitted-direct']
+ND_TAGS = ['nondefault-loop', 'nondefault-self-switch-clear', 'idle-default-on-target', 'idle-default-on-target-other']
 OMIT_TAGS = ['flag-omitted', 'flag-omitted-clear_current', 'flag-omitted-clear_next']
 
 HARNESSES = {
@@ -514,6 +550,12 @@ HARNESSES = {
                              nontrivial=[t for t in ALL_TAGS if t.startswith(('switch-', 'reenter', 'raw-clear'))],
                              required=[t for t in ALL_TAGS if t not in ('origin-on_update', 'origin-coroutine')]
                              + OMIT_TAGS),
+    'switch1-nd': dict(fn=h_switch, nontrivial=[t for t in ALL_TAGS if t.startswith(('switch-', 'raw-clear'))] + ND_TAGS,
+                       required=[t for t in ALL_TAGS if t != 'reenter-held'] + ND_TAGS),
+    'switch-proc-nd': dict(fn=h_switch,
+                           nontrivial=[t for t in ALL_TAGS if t.startswith(('switch-', 'reenter', 'raw-clear'))] + ND_TAGS,
+                           required=[t for t in ALL_TAGS if t not in ('origin-on_update', 'origin-coroutine')]
+                           + ND_TAGS),
     'switch-proc': dict(fn=h_switch,
                         nontrivial=[t for t in ALL_TAGS if t.startswith(('switch-', 'reenter', 'raw-clear'))],
                         required=[t for t in ALL_TAGS if t not in ('origin-on_update', 'origin-coroutine')]),
@@ -532,6 +574,7 @@ TIERS = {
         ('switch', dict(R=2, n_handles=2)),
         ('switch1', dict(R=1, n_handles=2)),
         ('switch1-omit', dict(R=1, n_handles=2, omit=True)),
+        ('switch1-nd', dict(R=1, n_handles=2, nondefault=True)),
     ],
     'thorough': [
         ('switch', dict(R=2, n_handles=3)),
@@ -541,6 +584,8 @@ TIERS = {
         ('switch-proc-np', dict(R=3, n_handles=3, origins=('processor',), precache=False)),
         ('switch1-omit', dict(R=1, n_handles=3, omit=True)),
         ('switch-proc-omit', dict(R=2, n_handles=2, origins=('processor',), omit=True)),
+        ('switch1-nd', dict(R=1, n_handles=3, nondefault=True)),
+        ('switch-proc-nd', dict(R=2, n_handles=2, origins=('processor',), nondefault=True)),
     ],
 }
 BUDGET_S = {'quick': 120, 'thorough': 1500}
@@ -560,11 +605,12 @@ RULE = ('one evaluation = one feasible path = one complete frame script with its
         '= the script used a clear flag, switched to the current handle, or re-entered a world that held events')
 BOUNDS = {
     'quick': '2 handles, scripts of exactly 1 and 2 requests (all origins, both methods, both clear flags, both '
-             'handle kinds, cached or not); 1 request with three-valued clear flags (omitted / False / True)',
+             'handle kinds, cached or not); 1 request with three-valued clear flags (omitted / False / True); 1 request on a loop that is not '
+             'desper.default_loop (idle default loop: no world / own world / seated on a script handle)',
     'thorough': '3 handles x 1 and 2 requests (everything); 2 handles x 3 requests issued from processors; 3 handles '
                 'x 3 requests, switch() from processors; 3 handles x 3 requests from processors, both methods, no '
                 'handle cached beforehand; three-valued clear flags: 3 handles x 1 request, 2 handles x 2 requests '
-                'from processors',
+                'from processors; non-default loop: 3 handles x 1 request, 2 handles x 2 requests from processors',
 }
 ASSUMPTIONS = [
     'a clear flag that is not passed at all (to desper.switch, SwitchWorld or Loop.switch) must behave exactly like '
@@ -580,6 +626,10 @@ ASSUMPTIONS = [
     'switch(); re-entry through a raw SwitchWorld is don\'t-care',
     '"cached" handles are loaded by the harness right before the frame in which they are first targeted (load() has '
     'no effect outside the instance, so this equals loading before start())',
+    'nondefault=True entries: the loop that runs is not desper.default_loop; desper.default_loop is another, idle '
+    'SimpleLoop (without a world, seated on a world of its own, or seated on one of the script handles - possibly the '
+    'target) and every switch() passes from_world= (the only thing switch() lets the user of a custom loop specify); '
+    'same oracle',
     'switch() from a processor passes from_world explicitly, from callbacks and coroutines it relies on '
     'desper.default_loop (pointed at the loop under test for the duration of the path)',
     'after an exception escaped CoroutineProcessor.process its rotation may be off by one frame (C08/C09 matter): '
